@@ -112,35 +112,84 @@ Proof.
   - apply IH. apply andb_true_iff in H. tauto.
 Qed.
 
+(* Model.v refuses a string for a slice field; KModel.v reads it as a JSON array.  The two agree on
+   documents none of whose strings spells a JSON array or null. *)
+Definition str_inert (s : string) : bool :=
+  match json_value s with Some (JArr _) | Some JNull => false | _ => true end.
+
+Fixpoint doc_inert (v : jv) : bool :=
+  match v with
+  | JStr s => str_inert s
+  | JArr l => (fix go (l : list jv) := match l with [] => true | x :: r => doc_inert x && go r end) l
+  | JObj o => (fix go (o : list (string * jv)) := match o with [] => true | (_, x) :: r => doc_inert x && go r end) o
+  | _ => true
+  end.
+
+Lemma inert_arr : forall l x, doc_inert (JArr l) = true -> In x l -> doc_inert x = true.
+Proof.
+  induction l as [|y r IH]; intros x H Hin; [destruct Hin|].
+  simpl in H. apply andb_true_iff in H. destruct H as [Hy Hr]. destruct Hin as [E|Hin]; [subst; exact Hy|].
+  apply IH; [exact Hr | exact Hin].
+Qed.
+
+Lemma inert_obj : forall (o : list (string * jv)) kv, doc_inert (JObj o) = true -> In kv o -> doc_inert (snd kv) = true.
+Proof.
+  induction o as [|[k y] r IH]; intros kv H Hin; [destruct Hin|].
+  simpl in H. apply andb_true_iff in H. destruct H as [Hy Hr]. destruct Hin as [E|Hin]; [subst; exact Hy|].
+  apply IH; [exact Hr | exact Hin].
+Qed.
+
+Lemma inert_lookup : forall (o : list (string * jv)) k v, doc_inert (JObj o) = true -> lookup k o = Some v -> doc_inert v = true.
+Proof.
+  induction o as [|[k' y] r IH]; intros k v H Hl; [discriminate|].
+  simpl in H. apply andb_true_iff in H. destruct H as [Hy Hr]. simpl in Hl.
+  destruct (String.eqb k k'); [inversion Hl; subst; exact Hy | apply (IH k v Hr Hl)].
+Qed.
+
+Lemma inert_from_array : forall cfg t v, doc_inert v = true -> doc_inert (from_array cfg t v) = true.
+Proof.
+  intros cfg t v H. unfold from_array. destruct (u_fromArray cfg); [|exact H].
+  destruct t; try exact H; destruct v; try exact H; destruct l; try exact H;
+    simpl in H; apply andb_true_iff in H; tauto.
+Qed.
+
 Section Collapse.
 Variable kc : kcfg.
 
 Definition CK_type (t : ftype) : Prop :=
   plain_type kc t = true ->
-  (forall env ro v, umk_present kc env t ro v = um_present fixed (k_cfg kc) t ro v) /\
-  (forall inmap v, umk_elem kc inmap t v = um_elem fixed (k_cfg kc) inmap t v) /\
+  (forall env ro v, doc_inert v = true -> umk_present kc env t ro v = um_present fixed (k_cfg kc) t ro v) /\
+  (forall inmap v, doc_inert v = true -> umk_elem kc inmap t v = um_elem fixed (k_cfg kc) inmap t v) /\
   umk_absent kc t = um_absent fixed (k_cfg kc) t.
 
 Definition CK_fields (fs : fields) : Prop :=
   plain_fields kc fs = true ->
-  (forall env o, umk_fields kc env fs o = um_fields fixed (k_cfg kc) fs o) /\
-  (forall env o filled, umk_opt_members kc env fs o filled = um_opt_members fixed (k_cfg kc) fs o filled).
+  (forall env o, doc_inert (JObj o) = true -> umk_fields kc env fs o = um_fields fixed (k_cfg kc) fs o) /\
+  (forall env o filled, doc_inert (JObj o) = true ->
+                        umk_opt_members kc env fs o filled = um_opt_members fixed (k_cfg kc) fs o filled).
 
-Lemma slice_with_ext : forall f g z l, (forall v, f v = g v) -> slice_with f z l = slice_with g z l.
+Lemma mapM_ext_in : forall {A B} (f g : A -> result B) (l : list A),
+  (forall a, In a l -> f a = g a) -> mapM f l = mapM g l.
 Proof.
-  intros f g z l H. unfold slice_with. destruct l as [|a l0]; [reflexivity|].
-  replace (mapM (fun v => match v with JNull => Ok z | _ => f v end) (a :: l0))
-     with (mapM (fun v => match v with JNull => Ok z | _ => g v end) (a :: l0)); [reflexivity|].
-  induction (a :: l0) as [|x r IH]; simpl; [reflexivity|].
-  rewrite IH. destruct x; try rewrite H; reflexivity.
+  intros A B f g l. induction l as [|x r IH]; intro H; simpl; [reflexivity|].
+  rewrite (H x (or_introl eq_refl)), IH; [reflexivity|]. intros a Ha. apply H. right. exact Ha.
 Qed.
 
-Lemma map_with_ext : forall f g (o : list (string * jv)), (forall v, f v = g v) -> map_with f o = map_with g o.
+Lemma slice_with_ext : forall f g z l, (forall v, In v l -> f v = g v) -> slice_with f z l = slice_with g z l.
+Proof.
+  intros f g z l H. unfold slice_with. destruct l as [|a l0]; [reflexivity|].
+  rewrite (mapM_ext_in (fun v => match v with JNull => Ok z | _ => f v end)
+                       (fun v => match v with JNull => Ok z | _ => g v end) (a :: l0)); [reflexivity|].
+  intros v Hv. destruct v; try rewrite (H _ Hv); reflexivity.
+Qed.
+
+Lemma map_with_ext : forall f g (o : list (string * jv)),
+  (forall kv, In kv o -> f (snd kv) = g (snd kv)) -> map_with f o = map_with g o.
 Proof.
   intros f g o H. unfold map_with.
-  replace (mapM (fun kv : string * jv => x <- f (snd kv);; Ok (fst kv, x)) o)
-     with (mapM (fun kv : string * jv => x <- g (snd kv);; Ok (fst kv, x)) o); [reflexivity|].
-  induction o as [|x r IH]; simpl; [reflexivity|]. rewrite IH, H. reflexivity.
+  rewrite (mapM_ext_in (fun kv : string * jv => x <- f (snd kv);; Ok (fst kv, x))
+                       (fun kv : string * jv => x <- g (snd kv);; Ok (fst kv, x)) o); [reflexivity|].
+  intros kv Hkv. rewrite (H kv Hkv). reflexivity.
 Qed.
 
 Lemma umk_default_plain : forall t d, is_slice_deref t = false -> umk_default kc t d = um_default t d.
@@ -149,28 +198,36 @@ Proof.
   rewrite IHt by exact H. reflexivity.
 Qed.
 
+Lemma str_slice_inert : forall e s, str_inert s = true -> str_slice e s = Err EType.
+Proof.
+  intros e s H. unfold str_inert in H. unfold str_slice.
+  destruct (json_value s) as [[| | | |l| |]|]; try reflexivity; discriminate.
+Qed.
+
 Lemma collapse_mutual : (forall t, CK_type t) /\ (forall fs, CK_fields fs).
 Proof.
   apply ftype_fields_ind.
   - intros k _. simpl. repeat split.
   - intros t IH Hp. simpl in Hp. destruct (IH Hp) as [H1 [H2 H3]].
     simpl. cbn [umk_absent um_absent]. repeat split.
-    + intros. rewrite H1. reflexivity.
-    + intros. rewrite H2. simpl. rewrite andb_false_r. reflexivity.
+    + intros env ro v Hv. rewrite H1 by exact Hv. reflexivity.
+    + intros inmap v Hv. rewrite H2 by exact Hv. simpl. rewrite andb_false_r. reflexivity.
     + rewrite H3. reflexivity.
   - intros e IH Hp. simpl in Hp. destruct (IH Hp) as [H1 [H2 H3]].
     simpl. cbn [umk_absent um_absent]. repeat split.
-    + intros env ro v. destruct v; try reflexivity. apply slice_with_ext. apply H2.
-    + intros inmap v. destruct v; try reflexivity. apply slice_with_ext. apply H2.
+    + intros env ro v Hv. destruct v; try reflexivity.
+      * apply str_slice_inert. exact Hv.
+      * apply slice_with_ext. intros x Hx. apply H2. apply (inert_arr l x Hv Hx).
+    + intros inmap v Hv. destruct v; try reflexivity. apply slice_with_ext. intros x Hx. apply H2. apply (inert_arr l x Hv Hx).
   - intros e IH Hp. simpl in Hp. destruct (IH Hp) as [H1 [H2 H3]].
     simpl. cbn [umk_absent um_absent]. repeat split.
-    + intros env ro v. destruct v; try reflexivity. apply map_with_ext. apply H2.
-    + intros inmap v. destruct v; try reflexivity. apply map_with_ext. apply H2.
+    + intros env ro v Hv. destruct v; try reflexivity. apply map_with_ext. intros kv Hkv. apply H2. apply (inert_obj l kv Hv Hkv).
+    + intros inmap v Hv. destruct v; try reflexivity. apply map_with_ext. intros kv Hkv. apply H2. apply (inert_obj l kv Hv Hkv).
   - intros fs IH Hp. simpl in Hp. destruct (IH Hp) as [H1 H2].
     simpl. cbn [umk_absent um_absent]. repeat split.
-    + intros env ro v. destruct v; try reflexivity. rewrite H1. reflexivity.
-    + intros inmap v. destruct v; try reflexivity. rewrite H1. reflexivity.
-    + rewrite H1. reflexivity.
+    + intros env ro v Hv. destruct v; try reflexivity. rewrite H1 by exact Hv. reflexivity.
+    + intros inmap v Hv. destruct v; try reflexivity. rewrite H1 by exact Hv. reflexivity.
+    + rewrite H1 by reflexivity. reflexivity.
   - intros _. simpl. split; reflexivity.
   - intros key op t IHt rest IHr Hp. simpl in Hp.
     apply andb_true_iff in Hp. destruct Hp as [Hp Hrest]. apply andb_true_iff in Hp. destruct Hp as [Hp Hdef].
@@ -179,15 +236,17 @@ Proof.
     apply plain_key_seg in Hk. destruct Hk as [Hseg Hign].
     assert (Hin : forall env o, field_inputK kc env t key o = field_input (k_cfg kc) t key o).
     { intros env o. unfold field_inputK, field_input. rewrite (getv_single kc env key o Hseg). reflexivity. }
+    assert (Hiv : forall o v, doc_inert (JObj o) = true -> field_input (k_cfg kc) t key o = Some v -> doc_inert v = true).
+    { intros o v Ho Hf. unfold field_input in Hf. destruct (lookup key o) as [w|] eqn:Hl; [|discriminate].
+      simpl in Hf. inversion Hf. apply inert_from_array. apply (inert_lookup o key w Ho Hl). }
     split.
-    + intros env o. simpl. rewrite Hign, Hin, R1, H3.
+    + intros env o Ho. simpl. rewrite Hign, Hin, (R1 env o Ho), H3.
       destruct (guard (opts_ok op) ETag); simpl; try reflexivity.
       destruct (resolve fixed (u_canonical (k_cfg kc)) key op o) as [ro| |] eqn:Hres; simpl; try reflexivity.
-      destruct (field_input (k_cfg kc) t key o) as [v|].
-      * destruct v; try rewrite H1; reflexivity.
+      destruct (field_input (k_cfg kc) t key o) as [v|] eqn:Hf.
+      * pose proof (Hiv o v Ho Hf) as Hv. destruct v; try rewrite (H1 _ _ _ Hv); reflexivity.
       * destruct (ro_default ro) as [d|] eqn:Hd; [|reflexivity].
         rewrite umk_default_plain; [reflexivity|].
-        (* the resolved options carry the declared default *)
         assert (Hod : opt_default op = Some d).
         { destruct op as [op'|]; simpl in *.
           - unfold resolve in Hres. destruct (o_optional op'); [destruct (o_dep op') as [[ng dp]|]|];
@@ -196,27 +255,30 @@ Proof.
                      end; try discriminate; inversion Hres; subst ro; simpl in Hd; exact Hd.
           - inversion Hres. subst ro. discriminate. }
         rewrite Hod in Hdef. apply negb_true_iff in Hdef. exact Hdef.
-    + intros env o filled. simpl. rewrite Hin, R2.
+    + intros env o filled Ho. simpl. rewrite Hin, (R2 env o filled Ho).
       unfold hasv. rewrite (getv_single kc env key o Hseg). fold (has key o).
       destruct (guard (opts_ok op) ETag); simpl; try reflexivity.
       destruct (resolve fixed (u_canonical (k_cfg kc)) key op o) as [ro| |]; simpl; try reflexivity.
-      destruct (field_input (k_cfg kc) t key o) as [v|].
-      * destruct v; try rewrite H1; reflexivity.
+      destruct (field_input (k_cfg kc) t key o) as [v|] eqn:Hf.
+      * pose proof (Hiv o v Ho Hf) as Hv. destruct v; try rewrite (H1 _ _ _ Hv); reflexivity.
       * destruct (ro_default ro); [|reflexivity]. rewrite andb_true_r. reflexivity.
   - intros opt ptr inner IHi rest IHr Hp. simpl in Hp. apply andb_true_iff in Hp. destruct Hp as [Hi Hrest].
     destruct (IHi Hi) as [I1 I2]. destruct (IHr Hrest) as [R1 R2]. split.
-    + intros env o. simpl. rewrite R1, I1, I2, (any_presentK_plain kc env inner o Hi). reflexivity.
-    + intros env o filled. simpl. rewrite R2. reflexivity.
+    + intros env o Ho. simpl. rewrite (R1 env o Ho), (I1 env o Ho), (any_presentK_plain kc env inner o Hi).
+      rewrite (I2 env o (any_present inner o) Ho). reflexivity.
+    + intros env o filled Ho. simpl. rewrite (R2 env o filled Ho). reflexivity.
 Qed.
 
 End Collapse.
 
-(* on keys that are their own single segment: the unmarshaller of Model.v *)
+(* on keys that are their own single segment, without slice defaults, and on documents whose
+   strings do not spell JSON arrays: the unmarshaller of Model.v *)
 Theorem unmarshalK_plain : forall kc fs d,
-  plain_fields kc fs = true -> unmarshalK kc fs d = unmarshal fixed (k_cfg kc) fs d.
+  plain_fields kc fs = true -> match d with Some v => doc_inert v | None => true end = true ->
+  unmarshalK kc fs d = unmarshal fixed (k_cfg kc) fs d.
 Proof.
-  intros kc fs d H. unfold unmarshalK, unmarshal. destruct d as [[| | | | |o|]|]; try reflexivity.
-  destruct (proj2 (collapse_mutual kc) fs H) as [H1 _]. rewrite H1. reflexivity.
+  intros kc fs d H Hd. unfold unmarshalK, unmarshal. destruct d as [[| | | | |o|]|]; try reflexivity.
+  destruct (proj2 (collapse_mutual kc) fs H) as [H1 _]. rewrite (H1 [] o Hd). reflexivity.
 Qed.
 
 (* ------------------------------------------------------------------ calls *)
